@@ -73,6 +73,9 @@ def encode(content, error=None, version=None, mode=None, mask=None,
         raise ValueError('Error correction level "H" is not available for Micro QR Codes')
     if eci and (micro or version in consts.MICRO_VERSIONS):
         raise ValueError('The ECI mode is not available for Micro QR Codes')
+    if eci and micro is None:
+        # ECI is not available for Micro QR Codes, do not choose one automatically
+        micro = False
     segments = prepare_data(content, mode, encoding)
     guessed_version = find_version(segments, error, eci=eci, micro=micro)
     if version is None:
